@@ -91,10 +91,20 @@ func buildCell(cell *C02Cell, lastVal int64) (*Prog, CheckCfg) {
 			{Op: "draw", Label: "c0", Gen: wideInt()},
 			{Op: "if", Cond: &Cond{Draw: 0, Op: "nmod", M: 3, C: 1}, Body: []*Stmt{{Op: "skip", Kind: "Skipf"}}}}, sig...)}}}))
 	case "cleanup":
-		p.Body = append(p.Body, guarded([]*Stmt{{Op: "cleanup", Body: sig}}))
+		// thenSkip: the body registers the signalling cleanup and then skips the test case
+		body := []*Stmt{{Op: "cleanup", Body: sig[:1]}}
+		if cell.ThenSkip {
+			body = append(body, &Stmt{Op: "skip", Kind: "Skipf"})
+		}
+		p.Body = append(p.Body, guarded(body))
 	case "ccleanup":
 		p.Body = append(p.Body, guarded([]*Stmt{{Op: "draw", Label: "c", Gen: &GenSpec{K: "custom", Body: []*Stmt{
-			{Op: "draw", Label: "c0", Gen: wideInt()}, {Op: "cleanup", Body: sig}}}}}))
+			{Op: "draw", Label: "c0", Gen: wideInt()}, {Op: "cleanup", Body: sig[:1]}}}}}))
+		if cell.ThenSkip {
+			// the function registers the signalling cleanup and then rejects its own attempt
+			cb := p.Body[len(p.Body)-1].Body[0].Gen
+			cb.Body = append(cb.Body, &Stmt{Op: "skip", Kind: "Skip"})
+		}
 	case "go":
 		p.Body = append(p.Body, guarded([]*Stmt{{Op: "go", Body: sig[:1]}}))
 		if cell.ThenSkip {
@@ -122,11 +132,14 @@ func cellValid(kind, context string, thenSkip bool) bool {
 	if context == "go" && !nonfatal {
 		return false // fatal signals and panics on another goroutine kill the process by design
 	}
+	if thenSkip && (context == "cleanup" || context == "ccleanup") {
+		return true // the skip happens in the body / the Custom function, after the cleanup was registered
+	}
 	if thenSkip && !nonfatal {
 		return false // nothing runs after a fatal signal
 	}
-	if thenSkip && (context == "cleanup" || context == "ccleanup" || context == "inv") {
-		return false // skipping from cleanups / the invariant is not generated (DESIGN.md 3.2)
+	if thenSkip && context == "inv" {
+		return false // skipping from the invariant is not generated (DESIGN.md 3.2)
 	}
 	return true
 }
